@@ -175,6 +175,10 @@ def gen_geo_case(rng):
         while md > 0 and (halo_cells(md, sx, sy)[0] > h or halo_cells(md, sx, sy)[1] > w):
             md *= 0.7
             kind = "cells-clipped"
+        # the cell size the code divides by is (max - min) / (n - 1) of decimal coordinates, i.e. sx up to rounding: keep the
+        # quotient away from k + 1/2, where that rounding would decide the halo (the generated pad is evaluated exactly)
+        while md > 0 and any(abs((md / s_) % 1.0 - 0.5) < 1e-3 for s_ in (sx, sy)):
+            md *= 0.987
     rch = list(random_composition(rng, h)) if rng.random() < 0.4 else [h]
     cch = list(random_composition(rng, w))
     if len(cch) == 1 and w >= 2:
